@@ -45,6 +45,11 @@ inductive Val where
   | int (v : Int)
   | none             -- Python `None`
   | other            -- float, string, …: outside the model
+  /-- `post_indexed` only: the dictionary has NO `"value"` key.  `ParserAArch64.process_memory_address` keeps the
+      grammar's own parse result when the post-index amount is not a number: a register
+      (`ld1 {v0.4s}, [x0], x1` ↦ `{"identifier": {"name": "x1"}}`) or a symbol.  The base register is then changed
+      by an amount that is not known statically. -/
+  | absent
   deriving DecidableEq, Repr, Inhabited
 
 /-- `MemoryOperand.offset` as `get_reg_changes` reads it -/
@@ -60,7 +65,7 @@ structure Opnd where
   key : Txt                 -- identity under `==` (`__eq__` of the operand classes): equal keys ⇔ equal operands
   val : Val := .none        -- immediates: `value`
   off : MOff := .absent     -- memory: `offset`
-  postVal : Val := .none    -- memory: `post_indexed["value"]`
+  postVal : Val := .none    -- memory: `post_indexed["value"]` (`.absent`: a dict without that key)
   deriving DecidableEq, Repr, Inhabited
 
 /-- an element of `semantic_operands[…]` -/
@@ -257,12 +262,20 @@ def destName : SemOp → Option Txt
 
 def destNames (s : Sem) : List Txt := (s.dst ++ s.srcDst).filterMap destName
 
+/-- `d["value"]` / `o.value` as a number.  `.absent` is what a plain subscript does on a dictionary without the
+    key (`KeyError: 'value'`): that was `get_reg_changes(…, only_postindexed=True)` before the repair, for every access
+    post-indexed by a register; the repaired code tests for the key first (`postChange`), so no path of the model
+    reaches this case with a value the parser can produce. -/
 def valInt : Val → Except Err (Option Int)
   | .int v => .ok (some v)
   | .none => .ok none
   | .other => .error .unsupported
+  | .absent => .error .keyError
 
-/-- `only_postindexed=True`: the first memory operand with a base and a post-index dict -/
+/-- `only_postindexed=True`: the first memory operand with a base and a post-index dict.
+    `if "value" not in o.post_indexed: return {base_name: None}` — a post-index by a register changes the base
+    "beyond reconstruction" (`KernelDG._update_reg_changes` reads `None` that way); otherwise
+    `{base_name: {"name": base_name, "value": o.post_indexed["value"]}}`. -/
 def postChange : List Opnd → Except Err (List (Txt × Option OpState))
   | [] => .ok []
   | o :: rest =>
@@ -270,9 +283,12 @@ def postChange : List Opnd → Except Err (List (Txt × Option OpState))
     | .mem m =>
       match m.base, m.post with
       | some b, true =>
-        match valInt o.postVal with
-        | .error e => .error e
-        | .ok v => .ok [(fullName b.pfx b.name, some { name := some (fullName b.pfx b.name), value := v })]
+        match o.postVal with
+        | .absent => .ok [(fullName b.pfx b.name, none)]
+        | pv =>
+          match valInt pv with
+          | .error e => .error e
+          | .ok v => .ok [(fullName b.pfx b.name, some { name := some (fullName b.pfx b.name), value := v })]
       | _, _ => postChange rest
     | _ => postChange rest
 
